@@ -1,6 +1,7 @@
 package gpbftsim
 
 import (
+	"strings"
 	"bytes"
 	"errors"
 	"fmt"
@@ -246,6 +247,13 @@ func (w *World) afterAPI(m *Member, before gpbft.InstanceProgress, api string, m
 		if after.ID == before.ID && after.Round > before.Round+1 {
 			w.r.Probe("skip_to_round")
 		}
+		if after.Round > 0 && (after.ID != before.ID || before.Round == 0 && (before.Phase == gpbft.QUALITY_PHASE || before.Phase == gpbft.INITIAL_PHASE)) {
+			if m.leftQualityBySkip == nil {
+				m.leftQualityBySkip = map[uint64]bool{}
+			}
+			m.leftQualityBySkip[after.ID] = true
+			w.r.Probe("left_quality_by_skip")
+		}
 		if after.Round > 0 && after.ID == before.ID && before.Round == 0 {
 			w.r.Probe("left_round_0")
 		}
@@ -269,7 +277,14 @@ func (w *World) afterAPI(m *Member, before gpbft.InstanceProgress, api string, m
 				w.r.Probe("late_binding_" + cls)
 			}
 		default:
-			w.fail("C07", "internal_error", api+":"+normErr(err), "member %d: %s returned error: %v (msg %v)", m.ID, api, err, msgOrNil(msg))
+			key := api + ":" + normErr(err)
+			if strings.Contains(key, "no values at CONVERGE") && !m.leftQualityBySkip[after.ID] {
+				// Finding W1 explains this error only for a member that left QUALITY of the instance
+				// by skipping to a later round (its proposal was never cut down to a QUALITY-backed
+				// prefix); for a member that went through PREPARE of round 0 it is something else.
+				key += " [member went through round 0]"
+			}
+			w.fail("C07", "internal_error", key, "member %d: %s returned error: %v (msg %v)", m.ID, api, err, msgOrNil(msg))
 		}
 	}
 }
